@@ -116,6 +116,19 @@ def toFull (n : Nat) (data : Array α) (s : Storage) : Option (Array α) :=
   | .full => some data
   | _ => collect n (toFullEntry n data s)
 
+/-- cell (ro, j) of the widened band of Banded ± Banded: `out[(k+muo)*n + j] = (0 + a[(k+mu)*n + j]) op b[(k+mu2)*n + j]`
+    with k = ro − muo, over the stored rows whose i = j + k lies in 0..n -/
+def bandedCell (isAdd : Bool) (a b : Array α) (n ml mu ml2 mu2 : Nat) (ro j : Nat) : Option α :=
+  let muo := max mu mu2
+  if muo ≤ j + ro ∧ j + ro < n + muo then
+    let i := j + ro - muo
+    let va : Option α := if inBand ml mu i j then a[(i + mu - j) * n + j]? else some Num.zero
+    let vb : Option α := if inBand ml2 mu2 i j then b[(i + mu2 - j) * n + j]? else some Num.zero
+    match va, vb with
+    | some x, some y => some (if isAdd then (Num.zero + x) + y else (Num.zero + x) - y)
+    | _, _ => none
+  else some Num.zero
+
 /-- Matrix ± Matrix; `op` is `+` or `-`, `idid` the diagonal value of Identity∘Identity (1+1 or: zeros) -/
 def addSub (isAdd : Bool) (A B : Mat α) : Option (Mat α) :=
   let op : α → α → α := fun x y => if isAdd then x + y else x - y
@@ -132,19 +145,7 @@ def addSub (isAdd : Bool) (A B : Mat α) : Option (Mat α) :=
   | .banded ml mu, .banded ml2 mu2 =>
       let mlo := max ml ml2
       let muo := max mu mu2
-      -- out[(k+muo)*n + j] = (0 + a[(k+mu)*n + j]) op b[(k+mu2)*n + j] over the stored rows whose i = j+k lies in 0..n
-      let entry := fun (ro j : Nat) =>
-        -- k = ro - muo  (as an integer); i = j + k
-        let iPlusMuo := j + ro            -- = i + muo
-        if muo ≤ iPlusMuo ∧ iPlusMuo < n + muo then
-          let i := iPlusMuo - muo
-          let va : Option α := if inBand ml mu i j then A.data[(i + mu - j) * n + j]? else some Num.zero
-          let vb : Option α := if inBand ml2 mu2 i j then B.data[(i + mu2 - j) * n + j]? else some Num.zero
-          match va, vb with
-          | some a, some b => some (op (Num.zero + a) b)
-          | _, _ => none
-        else some Num.zero
-      match collectRows (mlo + muo + 1) n entry with
+      match collectRows (mlo + muo + 1) n (bandedCell isAdd A.data B.data n ml mu ml2 mu2) with
       | some d => some ⟨n, n, d, .banded mlo muo⟩
       | none => none
   | sa, sb =>
